@@ -815,6 +815,45 @@ func (g *apiGen) lateGrowthGroupMod() string {
 	return gm
 }
 
+// sharedArgs: ONE caller-owned byte slice (an address) is handed to two field constructors of the same match, once
+// exact and once under a mask that does not cover all of its bits: encoding one field must not change what the other
+// field, built from the same slice, encodes to (nor the caller's slice)
+func (g *apiGen) sharedArgs() string {
+	r := g.c.rng
+	b := g.v()
+	f1, f2 := g.v(), g.v()
+	switch r.Intn(3) {
+	case 0:
+		g.add("%s=x0a01%02x%02x", b, 1+r.Intn(255), 1+r.Intn(255))
+		mask := []string{"xffffff00", "xffff0000", "xff000000", "xfffffff0"}[r.Intn(4)]
+		if r.Intn(2) == 0 {
+			g.add("%s=NewIpv4DstField($%s,~)", f1, b)
+			g.add("%s=NewIpv4SrcField($%s,%s)", f2, b, mask)
+		} else {
+			g.add("%s=NewIpv4SrcField($%s,~)", f1, b)
+			g.add("%s=NewIpv4DstField($%s,%s)", f2, b, mask)
+		}
+	case 1:
+		g.add("%s=x0a0b0c%02x%02x%02x", b, 1+r.Intn(255), 1+r.Intn(255), 1+r.Intn(255))
+		g.add("%s=NewEthDstField($%s,~)", f1, b)
+		g.add("%s=NewEthSrcField($%s,xffffff000000)", f2, b)
+	default:
+		g.add("%s=x20010db8%s", b, strings.Repeat("5a", 12))
+		g.add("%s=NewIpv6DstField($%s,~)", f1, b)
+		g.add("%s=NewIpv6SrcField($%s,xffffffffffffffff0000000000000000)", f2, b)
+	}
+	mt := g.v()
+	g.add("%s=NewMatch()", mt)
+	g.add("$%s.AddField(*$%s)", mt, f1)
+	g.add("$%s.AddField(*$%s)", mt, f2)
+	fm := g.v()
+	g.add("%s=NewFlowMod()", fm)
+	g.add("$%s.Xid=%d", fm, g.edge(0xffffffff))
+	g.add("$%s.Command=0", fm)
+	g.add("$%s.Match=*$%s", fm, mt)
+	return fm
+}
+
 // ctSetterOrder: an ADD flow-mod whose single apply-actions instruction holds one conntrack action configured by a random
 // sequence (with repetition, in any order) of its builder methods: whatever the order, the LAST call of each kind decides
 func (g *apiGen) ctSetterOrder() string {
@@ -878,6 +917,8 @@ func init() {
 		g.emit(sn)
 		cs := g.ctSetterOrder()
 		g.emit(cs)
+		sa := g.sharedArgs()
+		g.emit(sa)
 		lg := g.lateGrowth()
 		g.emitAs("apix", lg)
 		lp := g.lateGrowthPacketOut()
